@@ -27,6 +27,10 @@ Sym(lang, t) ==
       [] t = "QDQ" -> (IF lang = "python" THEN <<"TDQ", "DQ">> ELSE <<"DQ", "DQ", "DQ", "DQ">>)
       [] t = "PDQ" -> (IF lang = "python" THEN <<"TDQ", "DQ", "DQ">> ELSE <<"DQ", "DQ", "DQ", "DQ", "DQ">>)
       [] t = "BS" -> <<"BS">> [] t = "HASH" -> <<"HASH">> [] t = "BT" -> <<"BT">> [] t = "DQ" -> <<"DQ">>
+      \* text that only SPELLS a line break (&#10; &#xA; %0A are plain text; \n and \u{a} start with a backslash): it stays text
+      [] t \in {"AMPNL", "AMPXA"} -> <<"X", "HASH", "X">>
+      [] t = "PCTNL" -> <<"X">>
+      [] t \in {"BSN", "UNL"} -> <<"BS", "X">>
       [] OTHER -> <<"X">>
 \* what the wrappers do to a token before writing it (since fixes in typeshare: line-comment backends start a new
 \* comment line at every line break, TypeScript writes `*\/` for `*/`, Python escapes backslashes and the delimiter)
